@@ -1810,7 +1810,33 @@ func LexProgressRule(w *World, r *Result, rule string) {
 			return false
 		}
 		perFn := 0
-		for hdr := range headers {
+		// stable numbering: loops in source order
+		var hdrs []*ssa.BasicBlock
+		for h := range headers {
+			hdrs = append(hdrs, h)
+		}
+		firstPos := func(b *ssa.BasicBlock) token.Pos {
+			for _, blk := range append([]*ssa.BasicBlock{b}, b.Succs...) {
+				for _, ins := range blk.Instrs {
+					if ins.Pos().IsValid() {
+						return ins.Pos()
+					}
+				}
+			}
+			return token.NoPos
+		}
+		sort.Slice(hdrs, func(i, j int) bool {
+			pi, pj := firstPos(hdrs[i]), firstPos(hdrs[j])
+			if pi != pj {
+				return pi < pj
+			}
+			return hdrs[i].Index < hdrs[j].Index
+		})
+		ordinal := map[*ssa.BasicBlock]int{}
+		for i, h := range hdrs {
+			ordinal[h] = i + 1
+		}
+		for _, hdr := range hdrs {
 			// range loops terminate by construction
 			isRange := false
 			for _, ins := range hdr.Instrs {
@@ -1871,7 +1897,7 @@ func LexProgressRule(w *World, r *Result, rule string) {
 			}
 			n++
 			perFn++
-			key := fmt.Sprintf("lexloop:%s#%d", FuncName(fn), hdr.Index)
+			key := fmt.Sprintf("lexloop:%s#%d", FuncName(fn), ordinal[hdr])
 			pos := w.Pos(fn.Pos())
 			for _, ins := range hdr.Instrs {
 				if ins.Pos().IsValid() {
